@@ -307,6 +307,36 @@ R.contract(
     bounded_note="components with up to 2 parameters",
 )
 
+
+# ------------------------------------------------------------------------------------------------- store_components / Override.from_components: the snapshot is per location and independent of later edits
+META18 = "schemathesis.generation.meta:"
+
+
+class _Kinds(D):
+    def make(self, it, name, idx=()):
+        cls = it.resolve_class(META18 + "ComponentKind")
+        it.ensure_enum(cls)
+        present = [k for k in ("QUERY", "HEADERS") if it.path.choose([(False, True), (True, True)], f"generated:{k}")]
+        return {cls.members[k]: fresh_opaque(it, "ComponentInfoRef") for k in present}
+
+
+R.contract(
+    OV + "store_components",
+    prop="C18",
+    args={"case": Obj("spec:StoredCase", query=OneOf(NoneT, _Comp()), headers=OneOf(NoneT, _Comp()), cookies=NoneT, path_parameters=OneOf(NoneT, _Comp()),
+                      meta=OneOf(NoneT, Obj("spec:StoredMeta", components=_Kinds())))},
+    raises=[],
+    ensures={
+        # one snapshot per non-body location: a COPY of the container as generated (later edits of the case do not change it), flagged as generated iff the case's metadata lists that component
+        "a_copy_of_each_container_as_generated": "all(same_map(result[k].value, case_part(case, k)) and (result[k].value is None or not same_ref(result[k].value, case_part(case, k))) for k in result) and length(result) == 4",
+        "generated_flag_from_the_metadata": "all(result[k].is_generated == (case.meta is not None and any(k is c for c in case.meta.components)) for k in result)",
+    },
+    bounded_note="components with up to 2 parameters",
+)
+R.spec_funcs["case_part"] = lambda it, case, kind: case.fields[kind.fields["value"]]
+R.spec_funcs["same_map"] = lambda it, a, b: (a is None and b is None) if (a is None or b is None) else __import__("pyvc.ops", fromlist=["eq"]).eq(a, b)
+R.spec_funcs["same_ref"] = lambda it, a, b: a is b
+
 LEVEL_TEXT = ("Deductive for the two checks' trigger conditions (loop invariants, histories of any length, the DELETE's own response as the property demands); "
               "the path-prefix relation and the tree walk of the recorder are covered by exhaustive bounded stand-ins, hence level other.")
 LEVEL_NOTE = "Trusted: CheckContext.find_* (recorder walk checked by stand-in), message formatting helpers, pyvc semantics (E9)."
